@@ -406,8 +406,7 @@ fn consume_expr<'i>(
                         let mut pairs = pair.into_inner();
                         pairs.next().unwrap(); // opening_paren
                         let contents_pair = pairs.next().unwrap();
-                        let string =
-                            unescape(contents_pair.as_str()).expect("incorrect string literal");
+                        let string = unescape_literal(&contents_pair, "string")?;
                         ParserNode {
                             expr: ParserExpr::PushLiteral(string[1..string.len() - 1].to_owned()),
                             span: contents_pair.clone().as_span(),
@@ -430,7 +429,7 @@ fn consume_expr<'i>(
                             Rule::range_operator => 0,
                             Rule::integer => {
                                 pairs.next().unwrap(); // ..
-                                pair_start.as_str().parse().unwrap()
+                                parse_slice_index(&pair_start)?
                             }
                             _ => unreachable!("peek start"),
                         };
@@ -439,7 +438,7 @@ fn consume_expr<'i>(
                             Rule::closing_brack => None,
                             Rule::integer => {
                                 pairs.next().unwrap(); // }
-                                Some(pair_end.as_str().parse().unwrap())
+                                Some(parse_slice_index(&pair_end)?)
                             }
                             _ => unreachable!("peek end"),
                         };
@@ -453,7 +452,7 @@ fn consume_expr<'i>(
                         span: pair.clone().as_span(),
                     },
                     Rule::string => {
-                        let string = unescape(pair.as_str()).expect("incorrect string literal");
+                        let string = unescape_literal(&pair, "string")?;
                         ParserNode {
                             expr: ParserExpr::Str(string[1..string.len() - 1].to_owned()),
                             span: pair.clone().as_span(),
@@ -464,7 +463,7 @@ fn consume_expr<'i>(
                         // so take the literal from the inner `string` pair.
                         let span = pair.clone().as_span();
                         let literal = pair.into_inner().next().unwrap();
-                        let string = unescape(literal.as_str()).expect("incorrect string literal");
+                        let string = unescape_literal(&literal, "string")?;
                         ParserNode {
                             expr: ParserExpr::Insens(string[1..string.len() - 1].to_owned()),
                             span,
@@ -473,11 +472,11 @@ fn consume_expr<'i>(
                     Rule::range => {
                         let mut pairs = pair.into_inner();
                         let pair = pairs.next().unwrap();
-                        let start = unescape(pair.as_str()).expect("incorrect char literal");
+                        let start = unescape_literal(&pair, "char")?;
                         let start_pos = pair.clone().as_span().start_pos();
                         pairs.next();
                         let pair = pairs.next().unwrap();
-                        let end = unescape(pair.as_str()).expect("incorrect char literal");
+                        let end = unescape_literal(&pair, "char")?;
                         let end_pos = pair.clone().as_span().end_pos();
 
                         ParserNode {
@@ -715,6 +714,31 @@ fn consume_expr<'i>(
     };
 
     pratt.map_primary(term).map_infix(infix).parse(pairs)
+}
+
+/// Unescapes a string or character literal, reporting an escape that denotes no character
+/// (e.g. `\u{D800}`, `\u{110000}`) as an error at the literal instead of panicking.
+fn unescape_literal(pair: &Pair<'_, Rule>, what: &str) -> Result<String, Vec<Error<Rule>>> {
+    unescape(pair.as_str()).ok_or_else(|| {
+        vec![Error::new_from_span(
+            ErrorVariant::CustomError {
+                message: format!("incorrect {what} literal"),
+            },
+            pair.as_span(),
+        )]
+    })
+}
+
+/// Parses a `PEEK[..]` index, reporting a number that does not fit as an error.
+fn parse_slice_index(pair: &Pair<'_, Rule>) -> Result<i32, Vec<Error<Rule>>> {
+    pair.as_str().parse().map_err(|_| {
+        vec![Error::new_from_span(
+            ErrorVariant::CustomError {
+                message: "number cannot overflow i32".to_owned(),
+            },
+            pair.as_span(),
+        )]
+    })
 }
 
 fn unescape(string: &str) -> Option<String> {
